@@ -2,7 +2,8 @@
 //! field/definition order, names, earlier successful queries on the same memo and failed probes.
 use super::common::*;
 use crate::conv::*;
-use crate::ctx::{catch, Ctx};
+use crate::corpus::registry as reg;
+use crate::ctx::{catch, on_thread, Ctx};
 use crate::gen::types::*;
 use crate::gen::upgrade::Upgrader;
 use crate::model::misc::label_hash;
@@ -90,6 +91,38 @@ fn queries() -> Vec<(RType, RType)> {
             RType::service(vec![("m".into(), RType::func(vec![], vec![RType::record(vec![(h("p"), RType::opt(oa.clone())), (h("q"), ob.clone())])], vec![]))]),
         ),
     ]
+}
+
+/// With a small probability per function type, exchange `query` and `composite_query` (two annotations the rules keep
+/// apart although both denote read-only calls): an annotation change the generic upgrade steps never make.
+fn swap_query_kind(rng: &mut Rng, t: &RType) -> RType {
+    match t {
+        RType::Opt(u) => RType::opt(swap_query_kind(rng, u)),
+        RType::Vec(u) => RType::vec(swap_query_kind(rng, u)),
+        RType::Record(fs) => RType::Record(fs.iter().map(|(i, u)| (*i, swap_query_kind(rng, u))).collect()),
+        RType::Variant(fs) => RType::Variant(fs.iter().map(|(i, u)| (*i, swap_query_kind(rng, u))).collect()),
+        RType::Func { args, rets, modes } => RType::Func {
+            args: args.iter().map(|u| swap_query_kind(rng, u)).collect(),
+            rets: rets.iter().map(|u| swap_query_kind(rng, u)).collect(),
+            modes: if rng.chance(1, 6) {
+                match modes.as_slice() {
+                    [Mode::Query] => vec![Mode::CompositeQuery],
+                    [Mode::CompositeQuery] => vec![Mode::Query],
+                    _ => modes.clone(),
+                }
+            } else {
+                modes.clone()
+            },
+        },
+        RType::Service(ms) => RType::Service(ms.iter().map(|(n, u)| (n.clone(), swap_query_kind(rng, u))).collect()),
+        other => other.clone(),
+    }
+}
+fn swap_query_kind_env(rng: &mut Rng, env: REnv, ts: Vec<RType>) -> (REnv, Vec<RType>) {
+    if !rng.chance(1, 3) {
+        return (env, ts);
+    }
+    (REnv(env.0.iter().map(|d| swap_query_kind(rng, d)).collect()), ts.iter().map(|t| swap_query_kind(rng, t)).collect())
 }
 
 fn candid_subtype(env: &TypeEnv, gamma: &mut Gamma, a: &Type, b: &Type) -> Result<bool, crate::ctx::PanicInfo> {
@@ -290,6 +323,7 @@ pub fn run(ctx: &mut Ctx) {
         let mut up = Upgrader::new(&cfg);
         up.illegal_pct = *rng.pick(&[0, 10, 40]);
         let (env2, ts2) = up.up_env(rng, &env, &ts);
+        let (env2, ts2) = swap_query_kind_env(rng, env2, ts2);
         let mut merged = env.clone();
         let off = merged.append(&env2);
         if is_vacuous(&merged) {
@@ -349,11 +383,12 @@ pub fn run(ctx: &mut Ctx) {
         ctx.sample(|| json!({"env": merged.to_string(), "pairs": answers.iter().map(|(a, b, f, r)| format!("{a} <: {b} = {f:?}; reverse = {r:?}")).collect::<Vec<_>>()}));
     });
     // ---- 3. history independence: one memo shared by a sequence of queries -----------------------
-    ctx.cases("shared-memo-histories", 0.15, |ctx, rng| {
+    ctx.cases("shared-memo-histories", 0.1, |ctx, rng| {
         let env = gen_env(rng, &cfg);
         let mut up = Upgrader::new(&cfg);
         up.illegal_pct = 20;
         let (env2, _) = up.up_env(rng, &env, &[]);
+        let (env2, _) = swap_query_kind_env(rng, env2, vec![]);
         let mut merged = env.clone();
         let off = merged.append(&env2);
         if is_vacuous(&merged) || env.0.is_empty() {
@@ -417,7 +452,68 @@ pub fn run(ctx: &mut Ctx) {
         ctx.nontrivial(hash_str(&hist.join("|")));
     });
     // ---- 4. through .did text: order and names; upgrade check entry points -----------------------
-    ctx.cases("did-text-upgrade-checks", 0.15, |ctx, rng| {
+    // (5) types as the derive macro builds them (recursion tied with Knot nodes instead of names), in whatever order the
+    // thread happened to derive them: the checker must give the relation of their Candid meaning
+    let n_types = reg::len();
+    ctx.cases("rust-derived-types", 0.1, |ctx, rng| {
+        let i = rng.usize(n_types);
+        // partner: any type, or the same container over a related leaf
+        let j = if rng.chance(1, 4) { i } else { rng.usize(n_types) };
+        let hist: Vec<usize> = (0..rng.usize(4)).map(|_| if rng.bool() { rng.usize(n_types) } else if rng.bool() { i } else { j }).collect();
+        let clear_first = rng.bool();
+        let (ei, ti) = reg::with(i, |t| t.rtype());
+        let (ej, tj) = reg::with(j, |t| t.rtype());
+        let want_sub = r3::subtype2(&ei, &ti, &ej, &tj);
+        let want_eq = r3::requal2(&ei, &ti, &ej, &tj);
+        let hist2 = hist.clone();
+        let got = on_thread(16 << 20, move || {
+            if clear_first {
+                candid::types::internal::env_clear();
+            }
+            for k in &hist2 {
+                let _ = reg::with(*k, |t| t.ty());
+            }
+            let (a, b) = (reg::with(i, |t| t.ty()), reg::with(j, |t| t.ty()));
+            let env = TypeEnv::new();
+            let sub = subtype_with_config(OptReport::Silence, &mut Gamma::new(), &env, &a, &b).is_ok();
+            let eq = equal(&mut Gamma::new(), &env, &a, &b).is_ok();
+            let all = subtype_check_all(&mut Gamma::new(), &env, &a, &b).is_empty();
+            (sub, eq, all)
+        });
+        let (ni, nj) = (reg::with(i, |t| t.name()), reg::with(j, |t| t.name()));
+        let input = || json!({"t1": ni, "t2": nj, "derived_before": hist.iter().map(|k| reg::with(*k, |t| t.name())).collect::<Vec<_>>(), "model_t1": format!("[{ei}] {ti}"), "model_t2": format!("[{ej}] {tj}")});
+        match got {
+            Err(p) => ctx.violation(&format!("panic|rust-derived-types|{}", p.sig()), &p.message, input()),
+            Ok((sub, eq, all)) => {
+                if sub != want_sub {
+                    ctx.violation(
+                        &format!("rust-derived-types|{}|{}", if sub { "accepts-non-subtype" } else { "rejects-subtype" }, ni.split('<').next().unwrap_or("")),
+                        &format!("subtype({ni}::ty(), {nj}::ty()) = {sub}, the relation on their Candid types says {want_sub}"),
+                        input(),
+                    );
+                } else if all != want_sub {
+                    ctx.violation(
+                        &format!("rust-derived-types|report|{}", if all { "empty-for-non-subtype" } else { "non-empty-for-subtype" }),
+                        &format!("subtype_check_all({ni}::ty(), {nj}::ty()) empty = {all}, relation = {want_sub}"),
+                        input(),
+                    );
+                } else if eq != want_eq {
+                    ctx.violation(
+                        &format!("rust-derived-types|equal|{}", if eq { "accepts-different" } else { "rejects-equal" }),
+                        &format!("equal({ni}::ty(), {nj}::ty()) = {eq}, structural equality of their Candid types = {want_eq}"),
+                        input(),
+                    );
+                } else {
+                    ctx.count(if want_sub { "agree:rust-derived:subtype-yes" } else { "agree:rust-derived:subtype-no" });
+                    if i != j && want_sub {
+                        ctx.count("cover:rust-derived:distinct-related-pair");
+                    }
+                }
+                ctx.nontrivial(hash_str(&format!("rd|{ni}|{nj}")));
+            }
+        }
+    });
+    ctx.cases("did-text-upgrade-checks", 0.1, |ctx, rng| {
         use candid_parser::utils::{service_compatibility_report, service_compatible, service_equal, CandidSource};
         let cfg = TypeCfg { max_defs: 4, max_depth: 3, ..TypeCfg::default() };
         let env = gen_env(rng, &cfg);
@@ -427,6 +523,7 @@ pub fn run(ctx: &mut Ctx) {
         // new side: for an upgrade the NEW service must be a subtype of the OLD one: derive new by
         // "downgrading" is awkward, so derive old' from old by supertype steps and swap roles
         let (env_b, ts_b) = up.up_env(rng, &env, std::slice::from_ref(&old_actor));
+        let (env_b, ts_b) = swap_query_kind_env(rng, env_b, ts_b);
         let actor_b = match &ts_b[0] {
             RType::Service(_) => ts_b[0].clone(),
             _ => return,
